@@ -20,6 +20,11 @@ pub enum Ty {
     Ptr,
     /// Result<A, B> with a non-error `Err` payload (binary_search): Coq `(A + B)%type`, Ok = inl, Err = inr
     Either(Box<Ty>, Box<Ty>),
+    /// a byte slice (`&[u8]`, `&mut [u8]`, `Vec<u8>` contents) seen as its LENGTH: `len()`, `is_empty()`,
+    /// `split_at(n)` / `s[n..]` (both panic when n > len) are the only operations
+    Slice,
+    /// a pointer cast to `*const uN` / `*mut uN`: the address (as Ptr) + the access width in bytes
+    TPtr(u32),
     Unknown,
 }
 
@@ -33,6 +38,12 @@ pub enum Loc {
     Impl { ty: &'static str, tr: Option<&'static str>, f: &'static str },
     /// the location is inside the body of `macro_rules! mac`, instantiated textually with `subst`
     InMacro { mac: &'static str, subst: Vec<(&'static str, &'static str)>, inner: Box<Loc> },
+    /// the body of `macro_rules! mac` is ONE EXPRESSION (retry_eintr!): it is translated as the body of a
+    /// parameterless function after the textual substitution of the metavariables
+    MacroExpr { mac: &'static str, subst: Vec<(&'static str, &'static str)> },
+    /// the idx-th closure (source order) inside the function at `outer`: its parameters are the function's
+    /// parameters (types from `param_tys` / Unit), its body the function's body
+    Closure { outer: Box<Loc>, idx: usize },
 }
 
 #[derive(Debug, Clone)]
@@ -110,6 +121,32 @@ pub struct Spec {
     pub ret_wrap: Option<&'static str>,
     /// comment emitted above the definition
     pub note: &'static str,
+    // ---- third round (io.rs, copy helpers, guest_memory defaults, bitmap word loops)
+    /// implicit type parameters `{X : Type}` of the generated definition (abstract objects: a VolatileSlice, a region)
+    pub type_params: Vec<&'static str>,
+    /// opaque methods (`fns` / `effects`) whose RECEIVER is passed as the first argument
+    pub recv_arg: Vec<&'static str>,
+    /// loop kernels of a loop used as an expression: `break e` is `KReturn e` (the value of the loop);
+    /// `return` is then not allowed in the body
+    pub break_value: bool,
+    /// `while cond { body }` kernels: the step is `if cond then body else KBreak state`
+    pub loop_cond: bool,
+    /// effect kernels that also return a value: the result is `(list call * value)` (ecall / oecall)
+    pub effects_ret: bool,
+    /// names of locals whose final values are returned next to the function's value: `(value, l1, ..)`
+    pub with_locals: Vec<&'static str>,
+    /// `<ptr>.add(n)` is `padd m <line> ptr n` (the hand model treats pointer overflow like `+`) instead of `ptr_add`
+    pub ptr_checked: bool,
+    /// names / types given POSITIONALLY to the parameters of the closures translated inside the kernel
+    /// (Ty::Unit = opaque object, no binder)
+    pub closure_params: Vec<(&'static str, Ty)>,
+    /// translate the top-level statements FOLLOWING the i-th loop (`#i` state places as for loop_idx)
+    pub after_loop: Option<usize>,
+    /// `let x = ..` statements dropped by the (canonical) name they bind
+    pub skip_lets: Vec<&'static str>,
+    /// `self.iter().map(F).fold(INIT, G)` is translated to the triple (INIT, fun <extras of F> => F .., G):
+    /// F a kernel of this group (its extra parameters become the arguments), G `std::cmp::max` / `min`
+    pub iter_fold: Option<&'static str>,
 }
 
 impl Spec {
@@ -131,6 +168,8 @@ impl Spec {
         match t {
             Type::Reference(r) => self.ty_of(&r.elem),
             Type::Paren(p) => self.ty_of(&p.elem),
+            Type::Ptr(_) => Ty::Ptr,
+            Type::Slice(_) => Ty::Slice,
             Type::Group(g) => self.ty_of(&g.elem),
             Type::Tuple(t) => {
                 if t.elems.is_empty() {
@@ -144,7 +183,7 @@ impl Spec {
                 match s.as_str() {
                     "u64" | "usize" | "GuestUsize" | "Self :: V" => return Ty::Int(64),
                     "isize" | "i64" => return Ty::ISize,
-                    "u32" => return Ty::Int(32),
+                    "u32" | "i32" | "RawFd" => return Ty::Int(32),
                     "u16" => return Ty::Int(16),
                     "u8" => return Ty::Int(8),
                     "bool" => return Ty::Bool,
@@ -185,10 +224,12 @@ fn base(module: &'static str, group: &'static str, file: &'static str, name: &'s
         extra: vec![], fns: vec![], skip: vec![], drop_params: vec![], effects: vec![], locals: None, fields: vec![],
         consts: vec![], bitflags: None, endian: false,
         newtypes: vec!["GuestAddress", "MemoryRegionAddress", "AddrT"],
-        err_enums: vec!["Error", "MmapRegionError"],
+        err_enums: vec!["Error", "MmapRegionError", "VolatileMemoryError"],
         state: vec![], vars: vec![], step: None, loop_idx: None, until: None, param_tys: vec![], canon_params: vec![],
         recv_groups: vec![], id_methods: vec![], skip_as: vec![], rewrite: vec![], ctors: vec![], argsel: vec![],
         skip_loops: false, ret_wrap: None, note: "",
+        type_params: vec![], recv_arg: vec![], break_value: false, loop_cond: false, effects_ret: false, with_locals: vec![],
+        ptr_checked: false, closure_params: vec![], after_loop: None, skip_lets: vec![], iter_fold: None,
     }
 }
 
@@ -360,6 +401,75 @@ pub fn table() -> Vec<Spec> {
         s.skip_loops = true;
         t.push(s);
     }
+
+    // ------------------------------------------------------------------ src/volatile_memory.rs, mod copy_slice_impl
+    {
+        let vfile = "src/volatile_memory.rs";
+        let cs = |name: &'static str, f: &'static str, loc: Loc| base("CopySlice", "Volatile", vfile, name, f, loc);
+        let usize_bytes = || ("size_of :: < usize > ()".to_string(), "8".to_string(), Ty::Int(64));
+        // copy_slice_volatile: align = min(alignment(src), alignment(dst)); the passes 8 (64-bit host), 4, 2, 1 of
+        // the closure in this order (calls of the opaque local closure); returns total.  Result: (calls, (total, align))
+        let mut s = cs("csv_plan", "copy_slice_volatile", Loc::Free("copy_slice_volatile"));
+        s.canon_params = vec!["dst", "src", "total"];
+        s.effects = vec!["copy_aligned_slice"];
+        s.effects_ret = true;
+        s.with_locals = vec!["align"];
+        s.consts = vec![usize_bytes()];
+        t.push(s);
+        // the closure `copy_aligned_slice(min_align)`: its guard `if align < min_align { return; }` ...
+        let closure = || Loc::Closure { outer: Box::new(Loc::Free("copy_slice_volatile")), idx: 0 };
+        let mut s = cs("cas_guard", "copy_aligned_slice", closure());
+        s.canon_params = vec!["min_align"];
+        s.param_tys = vec![("min_align", Ty::Int(64))];
+        s.extra = vec![ex("align", "align", Ty::Int(64))];
+        s.until = Some("while");
+        s.step = Some(("unit", "unit"));
+        t.push(s);
+        // ... and ONE iteration of its `while left >= min_align` loop incl. the condition: copy_single(min_align,
+        // src, dst) (opaque), left -= min_align, `if left == 0 { break }`, src/dst advanced (the captured
+        // variables src, dst, left are the state)
+        let mut s = cs("cas_body", "copy_aligned_slice", closure());
+        s.canon_params = vec!["min_align"];
+        s.param_tys = vec![("min_align", Ty::Int(64))];
+        s.loop_idx = Some(0);
+        s.loop_cond = true;
+        s.state = vec![ex("src", "src", Ty::Ptr), ex("dst", "dst", Ty::Ptr), ex("left", "left", Ty::Int(64))];
+        s.effects = vec!["copy_single"];
+        s.ptr_checked = true;
+        s.step = Some(("N * N * N", "unit"));
+        t.push(s);
+        // copy_single: which widths are accepted and that source and destination are accessed with that width
+        // (`p as *const uN` = the address + N/8; the plain `*const u8` pointers of the 1-byte arm carry no width)
+        let mut s = cs("copy_single", "copy_single", Loc::Free("copy_single"));
+        s.canon_params = vec!["align", "src_addr", "dst_addr"];
+        s.effects = vec!["read_volatile", "write_volatile"];
+        t.push(s);
+        // copy_slice: the `total <= size_of::<usize>()` threshold: volatile loop vs bulk copy; returns total
+        let mut s = cs("copy_slice", "copy_slice", Loc::Free("copy_slice"));
+        s.canon_params = vec!["dst", "src", "total"];
+        s.effects = vec!["copy_slice_volatile", "copy_nonoverlapping"];
+        s.effects_ret = true;
+        s.consts = vec![usize_bytes()];
+        t.push(s);
+        // copy_from_volatile_slice / copy_to_volatile_slice: which pointer is source / destination of copy_slice
+        // (opaque), total passed on unchanged; the latter marks (0, count) dirty on the slice's bitmap afterwards
+        let mut s = cs("copy_from_volatile_slice", "copy_from_volatile_slice", Loc::Free("copy_from_volatile_slice"));
+        s.canon_params = vec!["dst", "slice", "total"];
+        s.drop_params = vec!["slice"];
+        s.skip_as = vec![("slice . ptr_guard ()", "guard")];
+        s.extra = vec![ex("guard . as_ptr ()", "slice_addr", Ty::Ptr)];
+        s.fns = vec![ofn("copy_slice", "copy_slice", "N -> N -> N -> N", Ty::Int(64))];
+        t.push(s);
+        let mut s = cs("copy_to_volatile_slice", "copy_to_volatile_slice", Loc::Free("copy_to_volatile_slice"));
+        s.canon_params = vec!["slice", "src", "total"];
+        s.drop_params = vec!["slice"];
+        s.skip_as = vec![("slice . ptr_guard_mut ()", "guard")];
+        s.extra = vec![ex("guard . as_ptr ()", "slice_addr", Ty::Ptr)];
+        s.fns = vec![ofn("copy_slice", "copy_slice", "N -> N -> N -> N", Ty::Int(64))];
+        s.effects = vec!["mark_dirty"];
+        s.effects_ret = true;
+        t.push(s);
+    }
     // ------------------------------------------------------------------ src/guest_memory.rs
     let gfile = "src/guest_memory.rs";
     let start = || ex("self . start_addr ()", "start", Ty::Addr);
@@ -396,6 +506,124 @@ pub fn table() -> Vec<Spec> {
         s.extra = vec![ex("region . start_addr ()", "start", Ty::Addr), ex("region . len ()", "len", Ty::Int(64))];
         s.recv_groups = vec![("region", "GuestRegion")];
         s.fns = vec![ofn("f", "f", "N -> N -> N -> rres N", Ty::Res(Box::new(Ty::Int(64))))];
+        t.push(s);
+    }
+
+    {
+        // ---- third round: the remaining provided methods of GuestMemory and the result decisions of
+        // Bytes<GuestAddress> for T: GuestMemory.  The collection is seen through find_region / to_region_addr /
+        // try_access (opaque); a region is an abstract object RG.
+        let gmk = |name: &'static str, f: &'static str| base("Guest", "GuestMemory", gfile, name, f, Loc::Trait("GuestMemory", f));
+        let resn = || Ty::Res(Box::new(Ty::Int(64)));
+        // check_range: try_access(len, base, |_, count, _, _| Ok(count)) (the closure is translated), then `== len`
+        let mut s = gmk("gm_check_range", "check_range");
+        s.canon_params = vec!["base", "len"];
+        s.fns = vec![ofn("try_access", "try_access", "N -> N -> (N -> N -> N -> rres N) -> rres N", resn())];
+        s.closure_params = vec![("total", Ty::Int(64)), ("count", Ty::Int(64)), ("start", Ty::Addr), ("region", Ty::Unit)];
+        t.push(s);
+        // to_region_addr: find_region(addr).map(|r| (r, r.to_region_addr(addr).unwrap())); start / len are those of r
+        let mut s = gmk("gm_to_region_addr", "to_region_addr");
+        s.canon_params = vec!["addr"];
+        s.type_params = vec!["RG"];
+        s.extra = vec![ext("self . find_region (addr)", "found", "option RG", opt(Ty::Unknown)),
+                       ex("r . start_addr ()", "start", Ty::Addr), ex("r . len ()", "len", Ty::Int(64))];
+        s.recv_groups = vec![("r", "GuestRegion")];
+        s.closure_params = vec![("r", Ty::Unknown)];
+        t.push(s);
+        // address_in_range / check_address
+        for (name, f) in [("gm_address_in_range", "address_in_range"), ("gm_check_address", "check_address")] {
+            let mut s = gmk(name, f);
+            s.canon_params = vec!["addr"];
+            s.type_params = vec!["RG"];
+            s.extra = vec![ext("self . find_region (addr)", "found", "option RG", opt(Ty::Unknown))];
+            t.push(s);
+        }
+        // get_host_address / get_slice: to_region_addr(addr).ok_or(InvalidGuestAddress(addr)).and_then(|(r, addr)| r.<f>(addr[, count]))
+        for (name, f, cty) in [("gm_get_host_address", "get_host_address", "RG -> N -> rres R"), ("gm_get_slice", "get_slice", "RG -> N -> N -> rres R")] {
+            let mut s = gmk(name, f);
+            s.canon_params = vec!["addr", "count"];
+            s.type_params = vec!["RG", "R"];
+            s.extra = vec![ext("self . to_region_addr (addr)", "tra", "option (RG * N)", opt(Ty::Tup(vec![Ty::Unknown, Ty::Addr])))];
+            s.fns = vec![ofn(f, "region_call", cty, Ty::Res(Box::new(Ty::Unknown)))];
+            s.recv_arg = vec![f];
+            s.closure_params = vec![("r", Ty::Unknown), ("addr", Ty::Addr)];
+            t.push(s);
+        }
+        // try_access: the statements before the loop (initial cur / total) and after it (total == 0 => InvalidGuestAddress(addr))
+        let mut s = gmk("try_access_init", "try_access");
+        s.canon_params = vec!["count", "addr", "f"];
+        s.drop_params = vec!["f"];
+        s.until = Some("while");
+        s.locals = Some(vec!["#0", "#1"]);
+        s.step = Some(("N * N", "rres N"));
+        t.push(s);
+        let mut s = gmk("try_access_post", "try_access");
+        s.canon_params = vec!["count", "addr", "f"];
+        s.drop_params = vec!["f"];
+        s.after_loop = Some(0);
+        s.state = vec![ex("#0", "cur", Ty::Addr), ex("#1", "total", Ty::Int(64))];
+        s.step = Some(("N * N", "rres N"));
+        t.push(s);
+        // Bytes<GuestAddress> for T: the `buf.is_empty()` guards of write / read, the callbacks they hand to
+        // try_access (`&buf[offset..]`: the buffer seen as its length), and the `res != expected => PartialBuffer`
+        // decisions of write_slice / read_slice / read_exact_volatile_from / write_all_volatile_to
+        let bk = |name: &'static str, f: &'static str, loc: Option<Loc>| {
+            let l = Loc::Impl { ty: "T", tr: Some("Bytes"), f };
+            base("Guest", "GuestBytes", gfile, name, f, loc.unwrap_or(l))
+        };
+        for (name, f) in [("gm_write_guard", "write"), ("gm_read_guard", "read")] {
+            let mut s = bk(name, f, None);
+            s.canon_params = vec!["buf", "addr"];
+            s.drop_params = vec!["buf", "addr"];
+            s.extra = vec![ex("buf . is_empty ()", "buf_is_empty", Ty::Bool)];
+            s.until = Some("self . try_access");
+            s.step = Some(("unit", "rres N"));
+            t.push(s);
+        }
+        for (name, f) in [("gm_write_cb", "write"), ("gm_read_cb", "read")] {
+            let mut s = bk(name, f, Some(Loc::Closure { outer: Box::new(Loc::Impl { ty: "T", tr: Some("Bytes"), f }), idx: 0 }));
+            s.canon_params = vec!["offset", "count", "caddr", "region"];
+            s.param_tys = vec![("offset", Ty::Int(64)), ("count", Ty::Int(64)), ("caddr", Ty::Addr), ("region", Ty::Unit)];
+            s.drop_params = vec!["count", "region"];
+            s.extra = vec![ex("buf", "buf_len", Ty::Slice)];
+            s.fns = vec![ofn(f, "region_call", "N -> N -> R", Ty::Unknown)];
+            t.push(s);
+        }
+        for (name, f, call, exp, canon) in [
+            ("gm_write_slice", "write_slice", "self . write (buf , addr)", "buf . len ()", vec!["buf", "addr"]),
+            ("gm_read_slice", "read_slice", "self . read (buf , addr)", "buf . len ()", vec!["buf", "addr"]),
+            ("gm_read_exact_volatile_from", "read_exact_volatile_from", "self . read_volatile_from (addr , src , count)", "count", vec!["addr", "src", "count"]),
+            ("gm_write_all_volatile_to", "write_all_volatile_to", "self . write_volatile_to (addr , dst , count)", "count", vec!["addr", "dst", "count"]),
+        ] {
+            let mut s = bk(name, f, None);
+            s.canon_params = canon.clone();
+            s.drop_params = canon;
+            s.extra = vec![ext(call, "res", "rres N", resn()), ex(exp, "expected", Ty::Int(64))];
+            t.push(s);
+        }
+    }
+    {
+        // GuestMemory::last_addr: self.iter().map(GuestMemoryRegion::last_addr).fold(GuestAddress(0), std::cmp::max)
+        // as the triple (initial value, mapped function of a region's (start, len), combining function)
+        let mut s = base("Guest", "GuestMemory", gfile, "gm_last_addr", "last_addr", Loc::Trait("GuestMemory", "last_addr"));
+        s.iter_fold = Some("GuestRegion");
+        t.push(s);
+        // src/bytes.rs: Bytes::write_obj = write_slice(val.as_slice(), addr); read_obj = read_slice(zeroed.as_mut_slice(), addr).map(|_| result)
+        let mut s = base("Guest", "BytesTrait", "src/bytes.rs", "bytes_write_obj", "write_obj", Loc::Trait("Bytes", "write_obj"));
+        s.canon_params = vec!["val", "addr"];
+        s.drop_params = vec!["val"];
+        s.param_tys = vec![("addr", Ty::Addr)];
+        s.type_params = vec!["B", "R"];
+        s.extra = vec![ext("val . as_slice ()", "val_bytes", "B", Ty::Unknown)];
+        s.fns = vec![ofn("write_slice", "write_slice", "B -> N -> R", Ty::Unknown)];
+        t.push(s);
+        let mut s = base("Guest", "BytesTrait", "src/bytes.rs", "bytes_read_obj", "read_obj", Loc::Trait("Bytes", "read_obj"));
+        s.canon_params = vec!["addr"];
+        s.param_tys = vec![("addr", Ty::Addr)];
+        s.type_params = vec!["B", "T0"];
+        s.skip_as = vec![("T :: zeroed ()", "result")];
+        s.extra = vec![ext("result . as_mut_slice ()", "obj_bytes", "B", Ty::Unknown), ext("result", "result", "T0", Ty::Unknown)];
+        s.fns = vec![ofn("read_slice", "read_slice", "B -> N -> rres unit", Ty::Res(Box::new(Ty::Unit)))];
         t.push(s);
     }
     // ------------------------------------------------------------------ src/bitmap/backend/slice.rs
@@ -467,6 +695,178 @@ pub fn table() -> Vec<Spec> {
         s.step = Some(("unit", "unit"));
         s.drop_params = vec!["start_addr", "len"];
         t.push(s);
+    }
+
+    {
+        // ---- third round: the per-word operations of get_and_reset / reset / clone, the struct clone builds,
+        // and the delegations of impl Bitmap for AtomicBitmap / set_addr_range / reset_addr_range
+        let imp = |f: &'static str| Loc::Impl { ty: "AtomicBitmap", tr: None, f };
+        // get_and_reset: the closure `|u| u.fetch_and(0, SeqCst)` applied to every word
+        let mut s = base("AtomicBitmap", "AtomicBitmap", bfile, "get_and_reset_word", "get_and_reset", Loc::Closure { outer: Box::new(imp("get_and_reset")), idx: 0 });
+        s.canon_params = vec!["u"];
+        s.param_tys = vec![("u", Ty::Unit)];
+        s.drop_params = vec!["u"];
+        s.effects = vec!["fetch_and"];
+        t.push(s);
+        // reset: ONE iteration of `for it in self.map.iter() { it.store(0, Release) }`
+        let mut s = bm("reset_word", "reset");
+        s.loop_idx = Some(0);
+        s.vars = vec![("it", Ty::Unit)];
+        s.effects = vec!["store"];
+        s.step = Some(("unit", "unit"));
+        t.push(s);
+        // Clone::clone: the closure `|i| i.load(Acquire)` applied to every word, and the fields of the new bitmap
+        let cl = || Loc::Impl { ty: "AtomicBitmap", tr: Some("Clone"), f: "clone" };
+        let mut s = base("AtomicBitmap", "AtomicBitmap", bfile, "clone_word", "clone", Loc::Closure { outer: Box::new(cl()), idx: 0 });
+        s.canon_params = vec!["i"];
+        s.param_tys = vec![("i", Ty::Unit)];
+        s.drop_params = vec!["i"];
+        s.effects = vec!["load"];
+        t.push(s);
+        let mut s = base("AtomicBitmap", "AtomicBitmap", bfile, "clone_fields", "clone", cl());
+        s.skip_lets = vec!["map"];
+        s.extra = vec![size(), ex("self . byte_size", "byte_size", Ty::Int(64)), psz()];
+        s.fields = vec!["size", "byte_size", "page_size"];
+        t.push(s);
+        // set_addr_range / reset_addr_range: set_reset_addr_range(start_addr, len, true / false)
+        for f in ["set_addr_range", "reset_addr_range"] {
+            let mut s = bm(f, f);
+            s.effects = vec!["set_reset_addr_range"];
+            t.push(s);
+        }
+        // impl Bitmap for AtomicBitmap: mark_dirty => set_addr_range, dirty_at => is_addr_set, slice_at => RefSlice::new(self, offset)
+        let bi = |name: &'static str, f: &'static str| base("AtomicBitmap", "AtomicBitmap", bfile, name, f, Loc::Impl { ty: "AtomicBitmap", tr: Some("Bitmap"), f });
+        let mut s = bi("bm_mark_dirty", "mark_dirty");
+        s.effects = vec!["set_addr_range"];
+        t.push(s);
+        let mut s = bi("bm_dirty_at", "dirty_at");
+        s.extra = vec![size(), psz()];
+        s.fns = vec![load()];
+        t.push(s);
+        let mut s = bi("bm_slice_at", "slice_at");
+        s.ctors = vec![("new", vec![1])];
+        t.push(s);
+    }
+    // ------------------------------------------------------------------ src/io.rs
+    {
+        let ifile = "src/io.rs";
+        let io = |name: &'static str, f: &'static str, loc: Loc| base("Io", "Io", ifile, name, f, loc);
+        let kind = |k: &'static str| (format!("ErrorKind :: {}", k), format!("EK_{}", k), Ty::Int(64));
+        let buf_len = || ex("buf . len ()", "buf_len", Ty::Int(64));
+        // retry_eintr!: ONE pass through `loop { let r = $io_call; if let Err(IOError(ref err)) = r { if
+        // err.kind() == Interrupted { continue; } } break r; }`: KNext = call again, KReturn r = the value of
+        // the loop.  An io::Error is seen as (the code of) its kind.
+        let mut s = io("retry_eintr_step", "retry_eintr", Loc::MacroExpr { mac: "retry_eintr", subst: vec![("io_call", "io_call")] });
+        s.loop_idx = Some(0);
+        s.break_value = true;
+        s.step = Some(("unit", "rres N"));
+        s.extra = vec![ext("io_call", "io_call", "rres N", Ty::Res(Box::new(Ty::Int(64))))];
+        s.consts = vec![("std :: io :: ErrorKind :: Interrupted".to_string(), "EK_Interrupted".to_string(), Ty::Int(64))];
+        s.id_methods = vec!["kind"];
+        t.push(s);
+        // default read_exact_volatile / write_all_volatile: ONE iteration of `while !partial_buf.is_empty() {
+        // match retry_eintr!(call) { Ok(0) => return Err(zero), Ok(n) => partial_buf = partial_buf.offset(n)?,
+        // Err(e) => return Err(e) } }` incl. the loop condition; the slice is an abstract object PB
+        for (name, tr, f, call, zero) in [
+            ("read_exact_step", "ReadVolatile", "read_exact_volatile", "retry_eintr ! (self . read_volatile (& mut partial_buf))", "UnexpectedEof"),
+            ("write_all_step", "WriteVolatile", "write_all_volatile", "retry_eintr ! (self . write_volatile (& partial_buf))", "WriteZero"),
+        ] {
+            let mut s = io(name, f, Loc::Trait(tr, f));
+            s.loop_idx = Some(0);
+            s.loop_cond = true;
+            s.type_params = vec!["PB"];
+            s.state = vec![ext("#0", "partial_buf", "PB", Ty::Unknown)];
+            s.step = Some(("PB", "rres unit"));
+            s.canon_params = vec!["buf"];
+            s.drop_params = vec!["buf"];
+            s.extra = vec![ext(call, "io_result", "rres N", Ty::Res(Box::new(Ty::Int(64))))];
+            s.fns = vec![ofn("offset", "offset", "PB -> N -> rres PB", Ty::Res(Box::new(Ty::Unknown))), ofn("is_empty", "is_empty", "PB -> bool", Ty::Bool)];
+            s.recv_arg = vec!["offset", "is_empty"];
+            s.consts = vec![kind(zero)];
+            s.ctors = vec![("new", vec![0])];
+            t.push(s);
+        }
+        // ReadVolatile for &[u8] / WriteVolatile for &mut [u8]: total = min, the copy (opaque: total -> count),
+        // `*self = self.split_at(n).1` (the slice `*self` seen as its length; split_at panics beyond it);
+        // result (Ok(n), new length of *self)
+        for (name, tr, f, copy, sel) in [
+            ("slice_read_volatile", "ReadVolatile", "read_volatile", "copy_to_volatile_slice", 2usize),
+            ("mslice_write_volatile", "WriteVolatile", "write_volatile", "copy_from_volatile_slice", 2usize),
+        ] {
+            let mut s = io(name, f, Loc::Impl { ty: "[T]", tr: Some(tr), f });
+            s.canon_params = vec!["buf"];
+            s.drop_params = vec!["buf"];
+            s.extra = vec![buf_len()];
+            s.state = vec![ex("self", "self_len", Ty::Slice)];
+            s.fns = vec![ofn(copy, "copy", "N -> N", Ty::Int(64))];
+            s.argsel = vec![(copy, vec![sel])];
+            t.push(s);
+        }
+        // read_exact_volatile for &[u8]: the `buf.len() > self.len()` pre-check (KReturn = the error), KNext = read_volatile runs
+        let mut s = io("slice_read_exact_guard", "read_exact_volatile", Loc::Impl { ty: "[T]", tr: Some("ReadVolatile"), f: "read_exact_volatile" });
+        s.canon_params = vec!["buf"];
+        s.drop_params = vec!["buf"];
+        s.extra = vec![buf_len(), ex("self . len ()", "self_len", Ty::Int(64))];
+        s.until = Some("self . read_volatile");
+        s.step = Some(("unit", "rres unit"));
+        s.consts = vec![kind("UnexpectedEof")];
+        s.ctors = vec![("new", vec![0])];
+        t.push(s);
+        // write_all_volatile for &mut [u8]: written == buf.len() or WriteZero
+        let mut s = io("mslice_write_all", "write_all_volatile", Loc::Impl { ty: "[T]", tr: Some("WriteVolatile"), f: "write_all_volatile" });
+        s.canon_params = vec!["buf"];
+        s.drop_params = vec!["buf"];
+        s.extra = vec![buf_len(), ext("self . write_volatile (buf)", "written", "rres N", Ty::Res(Box::new(Ty::Int(64))))];
+        s.consts = vec![kind("WriteZero")];
+        s.ctors = vec![("new", vec![0])];
+        t.push(s);
+        // WriteVolatile for Vec<u8>: reserve(count), copy of count bytes, assert_eq!, set_len(len + count), Ok(count)
+        let mut s = io("vec_write_volatile", "write_volatile", Loc::Impl { ty: "Vec", tr: Some("WriteVolatile"), f: "write_volatile" });
+        s.canon_params = vec!["buf"];
+        s.drop_params = vec!["buf"];
+        s.extra = vec![buf_len(), ex("self . len ()", "vec_len", Ty::Int(64))];
+        s.fns = vec![ofn("copy_from_volatile_slice", "copy", "N -> N", Ty::Int(64))];
+        s.argsel = vec![("copy_from_volatile_slice", vec![2])];
+        s.effects = vec!["reserve", "set_len"];
+        s.effects_ret = true;
+        t.push(s);
+        // Cursor: position clamp min(pos, len), the remaining slice `inner[len..]` handed to the slice impl
+        // (opaque: remaining length -> result), set_position(position + n)
+        let cur_extra = || vec![buf_len(), ex("self . position ()", "pos", Ty::Int(64)),
+                                ex("self . get_ref () . as_ref ()", "inner_len", Ty::Slice), ex("self . get_ref () . len ()", "inner_len", Ty::Int(64)),
+                                ex("self . get_mut ()", "inner_len", Ty::Slice)];
+        for (name, tr, f, callee, rty) in [
+            ("cursor_read_volatile", "ReadVolatile", "read_volatile", "read_volatile", Ty::Int(64)),
+            ("cursor_read_exact_volatile", "ReadVolatile", "read_exact_volatile", "read_exact_volatile", Ty::Unit),
+            ("cursor_write_volatile", "WriteVolatile", "write_volatile", "write_volatile", Ty::Int(64)),
+        ] {
+            let mut s = io(name, f, Loc::Impl { ty: "Cursor", tr: Some(tr), f });
+            s.canon_params = vec!["buf"];
+            s.drop_params = vec!["buf"];
+            s.extra = cur_extra();
+            let cty: &'static str = if rty == Ty::Unit { "N -> rres unit" } else { "N -> rres N" };
+            s.fns = vec![ofn(callee, "slice_call", cty, Ty::Res(Box::new(rty)))];
+            s.argsel = vec![(callee, vec![0])];
+            s.effects = vec!["set_position"];
+            s.effects_ret = true;
+            t.push(s);
+        }
+        // read_volatile_raw_fd / write_volatile_raw_fd: the system call is opaque (buffer length -> ssize_t);
+        // bytes < 0 => (read: mark the whole buffer) Err(last_os_error), else (read: mark bytes) Ok(bytes)
+        for (name, f, sys) in [("read_volatile_raw_fd", "read_volatile_raw_fd", "read"), ("write_volatile_raw_fd", "write_volatile_raw_fd", "write")] {
+            let mut s = io(name, f, Loc::Free(f));
+            s.canon_params = vec!["raw_fd", "buf"];
+            s.drop_params = vec!["raw_fd", "buf"];
+            s.extra = vec![buf_len(), ex("std :: io :: Error :: last_os_error ()", "last_os_error", Ty::Int(64))];
+            // the descriptor, the pointer guard and the raw pointer handed to the system call are opaque
+            s.skip = vec!["raw_fd . as_raw_fd ()", "guard . as_ptr () . cast :: < libc :: c_void > ()"];
+            s.skip_as = vec![("buf . ptr_guard_mut ()", "guard"), ("buf . ptr_guard ()", "guard")];
+            s.fns = vec![ofn(sys, "syscall", "N -> N", Ty::ISize)];
+            s.argsel = vec![(sys, vec![2])];
+            s.effects = vec!["mark_dirty"];
+            s.effects_ret = true;
+            t.push(s);
+        }
     }
     // ------------------------------------------------------------------ src/mmap/mod.rs
     {
@@ -572,6 +972,33 @@ pub fn table() -> Vec<Spec> {
         s.id_methods = vec!["start"];
         t.push(s);
     }
+    {
+        // ---- third round: MmapXenGrant::{unmap_range, mmap_range, mmap_ioctl} arithmetic and order
+        let ps = || ex("page_size () as usize", "page_size", Ty::Int(64));
+        let g = |name: &'static str, f: &'static str| base("Xen", "Xen", xfile, name, f, Loc::Impl { ty: "MmapXenGrant", tr: None, f });
+        // unmap_range: count of pages(size), drop(unix_mmap) BEFORE unmap_ioctl(count as u32, index)
+        let mut s = g("unmap_range", "unmap_range");
+        s.canon_params = vec!["unix_mmap", "size", "index"];
+        s.param_tys = vec![("unix_mmap", Ty::Unit)];
+        s.extra = vec![ps()];
+        s.effects = vec!["drop", "unmap_ioctl"];
+        t.push(s);
+        // mmap_range: (count, size) = pages(size); index = mmap_ioctl(addr, count)?; MmapUnix::new(size, prot, flags, fd, index)?
+        let mut s = g("mmap_range", "mmap_range");
+        s.canon_params = vec!["addr", "size", "prot"];
+        s.type_params = vec!["U"];
+        s.extra = vec![ps(), ex("self . flags", "flags", Ty::Int(32)), ex("self . as_raw_fd ()", "fd", Ty::Int(32))];
+        s.fns = vec![ofn("mmap_ioctl", "mmap_ioctl", "N -> N -> rres N", Ty::Res(Box::new(Ty::Int(64)))),
+                     ofn("new", "unix_new", "N -> N -> N -> N -> N -> rres U", Ty::Res(Box::new(Ty::Unknown)))];
+        t.push(s);
+        // mmap_ioctl: base = ((addr.0 & !XEN_GRANT_ADDR_OFF) / page_size()) as u32   (XEN_GRANT_ADDR_OFF = 1 << 63)
+        let mut s = g("mmap_ioctl_base", "mmap_ioctl");
+        s.canon_params = vec!["addr", "count"];
+        s.extra = vec![ex("page_size ()", "page_size", Ty::Int(64))];
+        s.consts = vec![("XEN_GRANT_ADDR_OFF".to_string(), "9223372036854775808".to_string(), Ty::Int(64))];
+        s.locals = Some(vec!["base"]);
+        t.push(s);
+    }
     // ------------------------------------------------------------------ src/endian.rs
     for (old, new, to_new, from_new, bits) in [
         ("u16", "Le16", "to_le", "from_le", 16), ("u32", "Le32", "to_le", "from_le", 32),
@@ -610,6 +1037,7 @@ pub fn table() -> Vec<Spec> {
 pub fn module_deps(m: &str) -> Vec<&'static str> {
     match m {
         "Guest" => vec!["Address"],
+        "CopySlice" => vec!["Volatile"],
         "Mmap" => vec!["Address", "Guest"],
         _ => vec![],
     }
